@@ -69,6 +69,24 @@ def _translate_uncached(traceback, tr):
     return gen
 
 
+def write_inst_acc():
+    """Gen/InstAcc.lean: per format, the decidable obligation that every accessor record of Gen/Data.lean
+    is what the C text of Gen/Cir.lean says (checkAccessors), proved by kernel evaluation."""
+    spec = spec_names()
+    src = ["/- REGENERATED instance obligations: accessor records (Gen/Data.lean) = C text (Gen/Cir.lean) -/",
+           "import O1722.Refine.AccessorsFormat", "import O1722.Gen.Data", "", "namespace O1722.Inst.Acc", "open O1722 O1722.Refine", ""]
+    names = []
+    for f in spec["formats"]:
+        n = lname(f["file"])
+        fl = "fns_" + re.sub(r"[^A-Za-z0-9_]", "_", os.path.splitext(os.path.basename(f["file"]))[0])
+        src.append("theorem acc_%s : checkAccessors Gen.%s Gen.Cir.%s = true := by decide +kernel" % (n, n, fl))
+        names.append("O1722.Inst.Acc.acc_%s" % n)
+    src += ["", "end O1722.Inst.Acc", ""]
+    with common.Lock("lake"):
+        write_if_changed(os.path.join(LEAN, "O1722", "Gen", "InstAcc.lean"), "\n".join(src))
+    return names
+
+
 def refine_stage(rep, prop, modules, theorems, what):
     """Code-level stage: rebuild the refinement modules (proofs that the C text serialised into
     Gen/Cir.lean, run by the C semantics of CSem/Eval.lean, equals the hand Model and satisfies the
@@ -77,6 +95,8 @@ def refine_stage(rep, prop, modules, theorems, what):
     gen = translate()
     failed = []
     log = ""
+    if "O1722.Gen.InstAcc" in modules:
+        theorems = list(theorems) + write_inst_acc()
     if gen.get("failed") or gen.get("cir", {}).get("failed"):
         failed = list(theorems)
         log = gen.get("failed") or gen["cir"]["failed"]
@@ -87,14 +107,14 @@ def refine_stage(rep, prop, modules, theorems, what):
             bad_mods = set(re.findall(r"error: [^\n]*O1722/(?:Refine|Gen)/([A-Za-z]+)\.lean", log))
             axioms = {}
             try:
-                axioms, _ = common.print_axioms(modules[-1], theorems)
+                axioms, _ = common.print_axioms(modules, theorems)
             except Exception:
                 pass
             failed = [t for t in theorems if t not in axioms]
             if not failed:
                 failed = list(theorems)
         else:
-            axioms, _ = common.print_axioms(modules[-1], theorems)
+            axioms, _ = common.print_axioms(modules, theorems)
             for t in theorems:
                 if t not in axioms:
                     failed.append(t)
@@ -252,10 +272,16 @@ def proof_stage(rep, prop, imports, obligations, general_theorems, atoms_expr=No
 # Code-level theorems per property: statements about the C TEXT (Gen/Cir.lean under CSem/Eval.lean),
 # rebuilt on every run.  (modules to build, theorems to audit, what they say)
 CODE_LEVEL = {
-    "C01": (["O1722.Refine.Props"], ["O1722.Refine.Avtp_GetField_refines", "O1722.Refine.C01_code"],
-            "the C text of Avtp_GetField = Model.getFieldLog (value, memory, access log), hence = the wire bits of the field"),
-    "C02": (["O1722.Refine.Props"], ["O1722.Refine.Avtp_SetField_refines", "O1722.Refine.C02_code"],
-            "the C text of Avtp_SetField = Model.setFieldLog, hence = the reference write of the value into the field's bits"),
+    "C01": (["O1722.Refine.Props", "O1722.Gen.InstAcc"],
+            ["O1722.Refine.Avtp_GetField_refines", "O1722.Refine.C01_code", "O1722.Refine.getter_code",
+             "O1722.Refine.C01_code_dedicated", "O1722.Refine.C01_code_generic"],
+            "the C text of Avtp_GetField = Model.getFieldLog (value, memory, access log), hence = the wire bits of the field; and the C "
+            "text of every generic / dedicated getter of every format (body = what its accessor record says, per-format obligation "
+            "acc_<format>) returns the Spec field's wire bits"),
+    "C02": (["O1722.Refine.Props", "O1722.Gen.InstAcc"],
+            ["O1722.Refine.Avtp_SetField_refines", "O1722.Refine.C02_code", "O1722.Refine.setter_code", "O1722.Refine.C02_code_dedicated"],
+            "the C text of Avtp_SetField = Model.setFieldLog, hence = the reference write of the value into the field's bits; and the C "
+            "text of every generic / dedicated setter of every format performs the reference write of its Spec field"),
     "C11": (["O1722.Refine.Props"], ["O1722.Refine.C11_code"],
             "the C text of Avtp_GetField/SetField on a NULL PDU or an out-of-range identifier: 0 / no effect, no memory access"),
     "C14": (["O1722.Refine.Props"], ["O1722.Refine.C14_code"],
